@@ -95,6 +95,7 @@ struct Case {
     utf8: bool,
     leaves: Vec<Leaf>,
     errcb: bool,
+    broken: bool,
 }
 
 enum Act {
@@ -242,6 +243,33 @@ fn main() {
                     }
                 }
             }
+            "WSRC" => {
+                // `WSRC <leaf> <unicode> <icase> <literal 0/1> <hex>`: replace the leaf's matcher by one built from the
+                // pattern *as written* (regex-syntax parser in the mode the literal kind asks for), so that the reference
+                // no longer depends on what the derive captured for this leaf
+                let i: usize = t[1].parse().unwrap();
+                let (unicode, icase, lit) = (t[2] == "1", t[3] == "1", t[4] == "1");
+                let bytes = unhex(t[5]);
+                let pat = if !lit {
+                    String::from_utf8(bytes).unwrap_or_default()
+                } else if unicode {
+                    regex_syntax::escape(&String::from_utf8(bytes).unwrap_or_default())
+                } else {
+                    bytes.iter().map(|b| format!("\\x{:02X}", b)).collect::<String>()
+                };
+                let h = regex_syntax::ParserBuilder::new().utf8(false).unicode(unicode).case_insensitive(icase).build().parse(&pat);
+                if let Some(lf) = cur.leaves.get_mut(i) {
+                    lf.vm = None;
+                    if let Ok(h) = h {
+                        if let Ok(nfa) = NFA::compiler().configure(NFA::config().utf8(cur.utf8)).build_from_hir(&h) {
+                            lf.vm = PikeVM::builder().configure(PikeVM::config().match_kind(MatchKind::All)).build_from_nfa(nfa).ok();
+                        }
+                    }
+                    if lf.vm.is_none() {
+                        cur.broken = true;
+                    }
+                }
+            }
             "CB" => {
                 let i: usize = t[1].parse().unwrap();
                 if let Some(lf) = cur.leaves.get_mut(i) {
@@ -261,7 +289,7 @@ fn main() {
                         table.insert(a, b);
                     }
                 }
-                let s = cur.lex(&hay, &|p| table.get(&p).copied());
+                let s = if cur.broken { "BADPATTERN".to_string() } else { cur.lex(&hay, &|p| table.get(&p).copied()) };
                 writeln!(out, "{} REF {} : {}", cur.name, t[2], s).unwrap();
             }
             _ => {}
